@@ -51,6 +51,8 @@ theorem newAppend_loop_timeOk (off n : Nat) :
   | succ n ih =>
     unfold newAppend.loop
     refine PostV.bind (centralHeader_timeOk off) fun f hf => ?_
+    split
+    · postv
     refine PostV.bind ih fun rest hrest => ?_
     postv
     intro g hg
